@@ -35,9 +35,9 @@ def _writePotential(potential, cutoff, gridPoints, meshResolution, out ):
 
   #First, do the energies
   l = []
-  r=0.0
   for i in range(gridPoints):
-    r += meshResolution
+    # k-th point is at k*meshResolution: a running sum drifts away from it by tens of ulps down the table
+    r = (i+1) * meshResolution
     l.append(potential.energy(r))
 
     if len(l) == 4:
@@ -48,9 +48,8 @@ def _writePotential(potential, cutoff, gridPoints, meshResolution, out ):
 
   #Now, do the forces
   l = []
-  r = 0.0
   for i in range(gridPoints):
-    r += meshResolution
+    r = (i+1) * meshResolution
     l.append(_calculateForce(potential, r))
 
     if len(l) == 4:
